@@ -471,3 +471,34 @@ func VerifC03_OneOfZeroKey() {
 }
 
 func init() { verifRegister("VerifC03_OneOfZeroKey", VerifC03_OneOfZeroKey) }
+
+// a key supplied with an explicit nil is a supplied property: its type must accept the value (an integer does not
+// accept nil), and a declared default neither replaces it nor rescues it
+func VerifC03_ExplicitNil() {
+	hasDefault := nondetBool("hasDefault")
+	var def *string
+	if hasDefault {
+		def = verifStrPtr("5")
+	}
+	o := NewObjectSchema("N", map[string]*PropertySchema{
+		"n": NewPropertySchema(NewIntSchema(nil, nil, nil), nil, false, nil, nil, nil, def, nil),
+		"m": NewPropertySchema(NewIntSchema(nil, nil, nil), nil, false, nil, nil, nil, nil, nil),
+	})
+	anyKeys := nondetBool("anyKeys")
+	var raw any = map[string]any{"n": nil, "m": nondetInt64("m")}
+	if anyKeys {
+		raw = map[any]any{"n": nil, "m": nondetInt64("m2")}
+	}
+	_, err := o.Unserialize(raw)
+	verifAssert("C03/nil/supplied-nil-is-rejected-by-the-integer-type", err != nil)
+	// the absent key, for comparison, takes the default or stays absent
+	got, err2 := o.Unserialize(map[string]any{"m": int64(1)})
+	verifAssert("C03/nil/absent-key-accepted", err2 == nil)
+	if err2 == nil {
+		v, has := got.(map[string]any)["n"]
+		verifAssert("C03/nil/absent-key-gets-default-iff-declared", has == hasDefault && (!has || v.(int64) == 5))
+	}
+	verifReach("C03/nil/end")
+}
+
+func init() { verifRegister("VerifC03_ExplicitNil", VerifC03_ExplicitNil) }
